@@ -178,6 +178,37 @@ def run(ctx):
         raw = [d for _bi, d in seeks if {"vertex_data_offset", "vertex_buffer_offsets"} <= d.names and "offset" not in d.names and "Mul" in d.ops]
         ctx.ob("SEEK", "raw-streams", len(raw) == 1 and "vertex_buffer_strides" in raw[0].names, f"raw stream seek derives from {sorted(raw[0].names) if raw else None}; must be LOD offset + stream offset + z * stride", b.file, b.line)
         ctx.floor("SEEK", "seek sites in MDL::from_existing", len(seeks), 3)
+        # the element seek is executed for every element: its block dominates the (usage, type) switch
+        usw = D.discr_switches(b, "model_vertex_declarations::VertexUsage")
+        elem_bb = [bi for bi, t_ in b.calls() if (t_.get("res") or "").endswith("Seek>::seek") and len(t_["args"]) == 2 and {"vertex_data_offset", "vertex_buffer_offsets", "vertex_buffer_strides", "stream", "offset"} <= derive(ix, t_["args"][1]).names]
+        dom = bool(usw) and bool(elem_bb) and all(b.dominates(elem_bb[0], sw_[0]) for sw_ in usw if len(sw_[2]) >= 6)
+        # and nothing between the seek and the switch is conditional on anything but the seek's own result
+        ctx.ob("SEEK", "element|unconditional", dom, "the element seek dominates the (usage, type) switch: every element is read at its own computed position (no position is carried over from the previous element)", b.file, b.line)
+        # LOD and mesh loops are bounded by the header counts, not by the fixed-size record arrays
+        bounds = []
+        for _bi, _si, s_ in b.stmts():
+            rv = s_.get("rv", {})
+            if rv.get("k") == "agg" and rv.get("adt", "").endswith("ops::Range") and len(rv["ops"]) == 2:
+                bounds.append((derive(ix, rv["ops"][0]), derive(ix, rv["ops"][1])))
+        lod_ok = any("lod_count" in hi.names for _lo, hi in bounds)
+        mesh_ok = any("mesh_index" in lo.names and {"mesh_index", "mesh_count"} <= hi.names for lo, hi in bounds)
+        iter_lods = False
+        for _bi, t_ in b.calls():
+            c_ = t_.get("res") or ""
+            if (c_.endswith("::iter") or c_.endswith("IntoIterator::into_iter") or c_.endswith("::into_iter") or c_.endswith("::iter_mut")) and t_["args"]:
+                r_ = ix.resolve(t_["args"][0])
+                hops = 0
+                while r_[0] == "call" and hops < 3 and r_[1]["args"]:
+                    # iter(deref(&model.lods)) etc.
+                    hops += 1
+                    r_ = ix.resolve(r_[1]["args"][0])
+                pl = r_[1]["p"] if r_[0] == "rv" and r_[1]["k"] in ("ref", "rawptr") else (r_[1] if r_[0] == "place" else None)
+                if pl is not None and pl["p"]:
+                    last = [pr for pr in pl["p"] if pr != "*"][-1:] or [None]
+                    if isinstance(last[0], dict) and last[0].get("n") == "lods" and last[0].get("a") == "model::ModelData":
+                        iter_lods = True
+        ctx.ob("SEEK", "lod-loop-bound", lod_ok and not iter_lods, f"LODs are walked over 0..header.lod_count ({lod_ok}); the fixed 3-record LOD array is not iterated wholesale ({not iter_lods})", b.file, b.line)
+        ctx.ob("SEEK", "mesh-loop-bound", mesh_ok, "meshes of a LOD are walked over lods[i].mesh_index .. mesh_index + mesh_count", b.file, b.line)
 
 
 def uv_ranges(body, blocks):
